@@ -646,10 +646,10 @@ pub assume_specification [std::time::Duration::as_secs] (d: &std::time::Duration
     ensures r == dur_secs(*d);
 
 /// whole seconds since the epoch as read by this operation (async engine; one reading per operation, DESIGN 5.2)
-pub uninterp spec fn now_secs() -> u64;
+pub uninterp spec fn spec_clock_secs() -> u64;
 
 #[verifier::external_body]
-pub fn clock_now_secs() -> (r: u64) ensures r == now_secs() { unimplemented!() }
+pub fn clock_now_secs() -> (r: u64) ensures r == spec_clock_secs() { unimplemented!() }
 
 #[verifier::external_body]
 pub fn rand_below(n: usize) -> (r: usize)
